@@ -685,7 +685,7 @@ def ex_match(c, s):
     subj = ev(c, s.subject)
     for i, case in enumerate(s.cases):
         k = c.occ(("case", subj, i))
-        c.event("case-test", subj, ast.dump(case.pattern), k)
+        c.event("case-test", subj, i, k)
         if not c.o.choose(("case-matches", subj, i, k)):
             continue
         if case.guard is not None and not c.truthy(ev(c, case.guard)):
